@@ -6,7 +6,7 @@ import time
 import z3
 
 from .. import chrun, corpus, framecond, pipe, splitcheck, splitsmt
-from ..common import Check, ROOT, seed, src_ref
+from ..common import Check, HarnessError, ROOT, seed, src_ref
 
 
 def splitter_conservation(chk, tier):
@@ -84,7 +84,10 @@ def run(tier):
     from sqlparse.engine.statement_splitter import StatementSplitter as SS
     chk.functions += [src_ref(sql.TokenList.group_tokens), src_ref(sql.TokenList.__str__), src_ref(sql.TokenList.flatten),
                       src_ref(sql.TokenList.__init__), src_ref(SS.process), src_ref(grouping.group)]
-    splitter_conservation(chk, tier)
+    try:
+        splitter_conservation(chk, tier)
+    except HarnessError as e:
+        chk.fail_inconclusive(f'E2 splitter conservation not decidable: {e}')
     # frame condition
     fc = framecond.scan()
     chk.extra['frame_condition'] = fc
@@ -94,18 +97,18 @@ def run(tier):
     jobs = [chrun.Job(M, 'gt_step', to, subst={'PART = -1': f'PART = {p}', 'NLEAF = 4': f'NLEAF = {nleaf}'},
                       label=f'gt_step[nv={p // 4 + 1},cls={p // 2 % 2},extend={p % 2}]', twin=(p % 4 == 0)) for p in range(nleaf * 4)]
     nlexeme, nlex = (16, 3) if tier == 'quick' else (32, 3)
-    jobs += pipe.jobs_for('vf/ch/pipeline.py', 'rt', nlexeme, nlex, 300 if tier == 'quick' else 1500)
+    jobs += pipe.jobs_for('vf/ch/pipeline.py', 'rt', nlexeme, nlex, 300 if tier == 'quick' else 1500, why='rt_why')
+    jobs.append(chrun.Job(os.path.join(ROOT, 'vf/ch/lexloop.py'), 'passthru', 100 if tier == 'quick' else 300))
     res = chrun.run_jobs(jobs)
 
     def mk(res_):
-        if res_['func'] == 'rt' and res_.get('call'):
-            mod = chrun.load_module(res_['file'], 'c02_replay')
-            ks = eval(res_['call'].replace('rt(', '(lambda ks: ks)('), {})
-            text = mod._text(ks)
-            return dict(input=text, observed=mod.rt_why(text),
+        ex = res_.get('explain') or {}
+        if 'input' in ex:
+            text = ex['input']
+            return dict(input=text, observed=ex.get('why'),
                         reproduce=f"cd /repo && /venv/bin/python -c \"import sqlparse; t={text!r}; print(repr(''.join(str(s) for s in sqlparse.parse(t))), repr(t))\"")
         return {}
-    chrun.settle(chk, res, classify=lambda r: 'group_tokens:step-not-text-preserving' if r['func'] == 'gt_step' else 'parse:not-text-preserving', make_replay=mk)
+    chrun.settle(chk, res, classify=lambda r: {'gt_step': 'group_tokens:step-not-text-preserving', 'passthru': 'lexer-input:str-not-passed-unchanged'}.get(r['func'], 'parse:not-text-preserving'), make_replay=mk)
     if fc['other_mutations']:
         chk.fail_inconclusive(f'frame condition: grouping.py mutates trees outside group_tokens: {fc["other_mutations"][:4]} -- the inductive step does not cover them; '
                               f'the end-to-end harness found no text change within its bound')
